@@ -519,9 +519,11 @@ def struct_library(draw):
 
 
 def _struct_job(job):
-    idx, lang, ytext, header = job
+    idx, lang, ytext, header = job[:4]
+    hname = job[4] if len(job) > 4 else "stlib.h"
     work = tempfile.mkdtemp(prefix="vf04s_", dir=core.scratch_root())
-    out = dict(kind="struct", idx=idx, problems=[], ninterfaces=0, nargs=0, sample=None, case=dict(struct_lib=dict(lang=lang, yaml=ytext, header=header)))
+    out = dict(kind="struct" if hname == "stlib.h" else "generic", idx=idx, problems=[], ninterfaces=0, nargs=0, sample=None,
+               case=dict(struct_lib=dict(lang=lang, yaml=ytext, header=header, hname=hname)))
     try:
         r = shroud_run.run_yaml(ytext, [], workdir=work, name="stlib")
         if r.status != "ok":
@@ -529,8 +531,8 @@ def _struct_job(job):
             return out
         gen = os.path.join(work, "out")
         files0 = sorted(os.listdir(gen))
-        open(os.path.join(gen, "stlib.h"), "w").write(header)
-        out.update(analyse_dir(gen, files0, [gen], "c" if lang == "c" else "c++", [os.path.join(gen, "stlib.h")]))
+        open(os.path.join(gen, hname), "w").write(header)
+        out.update(analyse_dir(gen, files0, [gen], "c" if lang == "c" else "c++", [os.path.join(gen, hname)]))
     except iface.IfaceError as e:
         raise core.HarnessError(str(e))
     finally:
@@ -636,6 +638,14 @@ def run(ctx):
     # the same libraries as the second library of their process (a build script that wraps two libraries)
     results += core.pool_map(_second_job, [j for j in jobs if j[2] is None][:(12 if quick else 150)])
     results += core.pool_map(_struct_job, [(i,) + t for i, t in enumerate(smallgen.sample(struct_library(), ctx.seed + 31, 16 if quick else 200))])
+    # fortran_generic / assumed-rank libraries (extra bind(C) interfaces for rank-changing variants; C01 executes them)
+    from ..exec import generic_e2e
+    gjobs = []
+    for lang in ("c++", "c"):
+        for cs in smallgen.sample(generic_e2e.case(lang), ctx.seed + 41, 6 if quick else 80):
+            for options in (None, {"F_CFI": True}):
+                gjobs.append((len(gjobs), lang, generic_e2e.yaml_text(cs, options), generic_e2e.subject(cs)[0], "genlib.h"))
+    results += core.pool_map(_struct_job, gjobs)
     names = sorted(set(upstream.target_lists()["fortran"]))
     if quick:
         import random  # deterministic corpus subset from VERIF_SEED
@@ -687,7 +697,7 @@ def replay(ctx, rec):
                 ctx.failure("enum-table:c-vs-fortran", c, observed=note, note=note)
         return
     if "struct_lib" in c:
-        out = _struct_job((0, c["struct_lib"]["lang"], c["struct_lib"]["yaml"], c["struct_lib"]["header"]))
+        out = _struct_job((0, c["struct_lib"]["lang"], c["struct_lib"]["yaml"], c["struct_lib"]["header"], c["struct_lib"].get("hname", "stlib.h")))
         for key, note in out["problems"]:
             ctx.failure(key, c, observed=note, note=note)
         return
